@@ -1,0 +1,30 @@
+//go:build verif
+
+package verifhook
+
+import (
+	"sync/atomic"
+)
+
+// Sink receives the events. It is set by the verification harness before any engine code runs. The sequence number
+// is taken inside Emit, so events emitted under a lock are ordered consistently with that lock.
+var Sink func(seq uint64, kind string, kv []any)
+
+// GateFn is called at scheduling points. It may block. It is set by the verification harness.
+var GateFn func(point string, kv []any)
+
+var seq atomic.Uint64
+
+// Emit records an event.
+func Emit(kind string, kv ...any) {
+	if s := Sink; s != nil {
+		s(seq.Add(1), kind, kv)
+	}
+}
+
+// Gate marks a scheduling point.
+func Gate(point string, kv ...any) {
+	if g := GateFn; g != nil {
+		g(point, kv)
+	}
+}
